@@ -13,6 +13,7 @@ from ..ref import Graph
 from .c05 import cfg_fields
 
 LEVEL = "exploration"
+TECHNIQUE = 'runtime monitoring: reference implementations of the seven filters judge every observed filter application (selection, order, provenance record, input snapshot unchanged) over boundary-hitting datasets and random filter sequences; from_config vs hand application'
 RULE = ("every built-in filter (path_length, start_end_distance, cut_percentile_shortest, truncate_count, remove_duplicates_fast, "
         "remove_duplicates, custom_maze_filter, collect_generation_meta) applied to harness-built datasets that hit the boundaries "
         "(all-equal lengths, lengths straddling the percentile, exact duplicates at first/last/adjacent positions, near-duplicates "
